@@ -16,6 +16,9 @@ import (
 
 func init() { Registry["C01"] = C01 }
 
+// `QuerySelector(doc, "*") == nil`, possibly merged with the node itself: μ($0|QuerySelector($0,"*")) == nil
+var reRootFound = regexp.MustCompile(`^(μ\((\$0\|)+)?dom\.QuerySelector\(\$0,"\*"\)(\|\$0)*\)? == nil$`)
+
 var linkFields = map[string]bool{"Parent": true, "FirstChild": true, "LastChild": true, "PrevSibling": true, "NextSibling": true}
 
 func isNodePtr(t types.Type) bool {
@@ -905,7 +908,9 @@ func C01(p *core.Program, r *core.Report) {
 				if l.Atom == "$0.Type == html.ElementNode" {
 					isEl = tern(l.Val)
 				}
-				if l.Atom == `dom.QuerySelector($0,"*") == nil` {
+				// (the first element below the node, tested as such or merged with the node itself
+				// when the two nil tests of Apply are written as one)
+				if reRootFound.MatchString(l.Atom) {
 					found = tern(!l.Val)
 				}
 			}
